@@ -37,8 +37,11 @@ engines = [
  {"name": "B", "path": "harness/src/props_build.rs", "serves_properties": ["C06","C11","C12","C13","C14","C16","C17","C18"], "kind_free_text": B},
 ]
 
+TWO_BUILDS = " Checked on two builds of fn_graph: with the `interruptible` feature (all of the above) and with the crate's default feature set (second harness binary: the same spaces restricted to what that API can express, DESIGN 2.5)."
 checks = []
 for pid, (eng, text, ref, note, tech) in props.items():
+    if pid in ("C01","C02","C03","C04","C05","C06","C07","C09","C10","C15","C20"):
+        text += TWO_BUILDS
     checks.append({
         "property_id": pid,
         "quick_cmd": f"./check {pid} quick",
@@ -53,10 +56,10 @@ for pid, (eng, text, ref, note, tech) in props.items():
 
 manifest = {
  "version": 1,
- "setup_cmd": "cd /verif/harness && CARGO_NET_OFFLINE=true CARGO_TARGET_DIR=/verif/target cargo build --release --offline",
+ "setup_cmd": "cd /verif && ./check build",
  "hooks": {
    "guard": "cargo feature verif_hooks",
-   "enable": "the harness crate depends on /repo by path with features [async, interruptible, graph_info, verif_hooks]; every ./check rebuilds it from /repo's working tree",
+   "enable": "the harness crate depends on /repo by path with features [async, graph_info, verif_hooks] plus, in the first of its two builds, interruptible; every ./check rebuilds both from /repo's working tree",
    "baseline_off_cmd": "cd /repo && (cargo nextest run --workspace --no-fail-fast --offline || cargo test --workspace --no-fail-fast --offline)",
    "source_commits": ["64ccc2dc68a84c8b1cfc1189ecd43d16f3d72b65"],
    "add_only": True,
